@@ -168,10 +168,11 @@ example : (stepShell [] (.cd "nx".toList) (defaultShell [])).err = true ∧
     (exec [] .pl [.cd "nx".toList, .true_] (defaultShell []) ⟨18, 1024⟩).aborted = false := by decide
 
 /-- In `m1 | … | { mk; }` the parent's line is abandoned exactly when the last command is the
-parent's own (`lastpipe`, or a pipeline of one command) and is an `exit`: never by a subshell. -/
+parent's own (`lastpipe`, or a pipeline of one command) and is an `exit` or an `exec <command>`
+(which at clone depth 0 replaces the process): never by a subshell. -/
 theorem pipeline_line_ends_only_by_own_exit (root : List Str) (init : List Mut) (l : Mut) (p : ShellPart) (w : World) :
     (exec root .pl (init ++ [l]) p w).aborted =
-      ((lastpipeOn p || init.isEmpty) && (stepShell root l p).exited) :=
+      ((lastpipeOn p || init.isEmpty) && ((stepShell root l p).exited || execReplaces l)) :=
   pl_aborted root init l p w
 
 /-- **Nothing else flows back.**  If no `umask`/`ulimit` runs in the subshell (and, for a pipeline
@@ -208,6 +209,47 @@ theorem exit_stays_in_subshell (root : List Str) (c : Ctx) (n : Nat) (p : ShellP
     (hc : c ≠ .pl) :
     (exec root c [.exit n] p w).aborted = false ∧ (exec root c [.exit n] p w).shell = prepare c p :=
   ⟨exec_aborted root c _ p w hc, subshell_preserves_parent_value root c _ p w hc⟩
+
+/-! ## `exec <command>` in a subshell -/
+
+/-- What `exec cmd` does when a subshell (a clone) runs it, in brush: the command runs, its status and
+output are the command's, the `Shell` value is untouched and the subshell's list goes on — no
+execve.  (bash ends the subshell with the command's status; brush goes on to the next command.) -/
+theorem exec_in_subshell_is_emulated (root : List Str) (k : Str) (s : ShellPart) :
+    (stepShell root (.execCmd k) s).sh = s ∧ (stepShell root (.execCmd k) s).exited = false ∧
+    (stepShell root (.execCmd k) s).status = execStatus k ∧ (stepShell root (.execCmd k) s).out = execOut k :=
+  ⟨rfl, rfl, rfl, rfl⟩
+
+/-- **A subshell's `exec` stays in the subshell.**  In every context other than a pipeline whose
+last command is the parent's own, for every body of any length containing any `exec`s: the parent's
+line goes on, its `Shell` value is what it was, and — with no `umask`/`ulimit` in the body — the
+whole parent is determined by the status and output that came back. -/
+theorem subshell_exec_stays_in_subshell (root : List Str) (c : Ctx) (ms : List Mut) (p : ShellPart) (w : World)
+    (hc : c ≠ .pl) :
+    (exec root c ms p w).aborted = false ∧ (exec root c ms p w).shell = prepare c p :=
+  ⟨exec_aborted root c ms p w hc, subshell_preserves_parent_value root c ms p w hc⟩
+
+/-- In a pipeline an `exec` in any stage but the parent's own last one leaves the parent running:
+`exec /bin/echo x | cat; echo alive`, `true | exec /bin/echo x` without `lastpipe`. -/
+theorem stage_exec_stays_in_stage (root : List Str) (init : List Mut) (l : Mut) (p : ShellPart) (w : World)
+    (h : lastpipeOn p = false) (hi : init ≠ []) :
+    (exec root .pl (init ++ [l]) p w).aborted = false := by
+  have hi' : init.isEmpty = false := by cases init <;> simp_all
+  rw [pl_aborted]; simp [h, hi']
+
+/-- Under `lastpipe` the last stage is the parent itself: `true | exec /bin/echo x` replaces the
+shell (as in bash) — the parent's own doing, not a subshell's. -/
+theorem own_exec_replaces_the_shell (root : List Str) (init : List Mut) (k : Str) (p : ShellPart) (w : World)
+    (h : lastpipeOn p = true) (hk : k ≠ "nosuch".toList) :
+    (exec root .pl (init ++ [.execCmd k]) p w).aborted = true := by
+  rw [pl_aborted]; simp only [h, execReplaces, Bool.true_or, Bool.true_and, Bool.or_eq_true, bne_iff_ne, ne_eq]
+  exact Or.inr hk
+
+example : (∀ c ∈ Ctx.all, c ≠ .pl →
+      (exec [] c [.execCmd "echo".toList, .assign "v1".toList "q".toList] (defaultShell []) ⟨18, 1024⟩).aborted = false) ∧
+    (exec [] .paren [.execCmd "echo".toList, .echo "y".toList, .exit 3] (defaultShell []) ⟨18, 1024⟩).out = [['x'], ['y']] ∧
+    (exec [] .pl [.execCmd "true".toList, .true_] (defaultShell []) ⟨18, 1024⟩).aborted = false ∧
+    (exec [] .pl [.true_, .execCmd "true".toList] (defaultShell []) ⟨18, 1024⟩).aborted = false := by decide
 
 /-! ## collecting a background job: the synchronisation step -/
 
